@@ -469,12 +469,29 @@ func (x *Exec) varLV(st *State, v *types.Var) LV {
 
 // modSet: local variables and heap components possibly written by a piece of code.
 type modSet struct {
-	vars  map[types.Object]bool
-	comps map[string]Sort
-	all   bool
+	vars      map[types.Object]bool
+	comps     map[string]Sort
+	all       bool
+	imprecise map[string]bool // components written at locations we cannot name at the loop head
+	writes    []lvWrite       // candidate precise writes
+	tracking  *[]string       // when non-nil: component names added are recorded here
+	info      *types.Info
 }
 
-func (ms *modSet) add(name string, s Sort) { ms.comps[name] = s }
+type lvWrite struct {
+	expr  ast.Expr
+	comps []string
+	info  *types.Info
+}
+
+func (ms *modSet) add(name string, s Sort) {
+	ms.comps[name] = s
+	if ms.tracking != nil {
+		*ms.tracking = append(*ms.tracking, name)
+	} else {
+		ms.imprecise[name] = true
+	}
+}
 func (ms *modSet) merge(o *modSet) {
 	for k := range o.vars {
 		ms.vars[k] = true
@@ -482,16 +499,41 @@ func (ms *modSet) merge(o *modSet) {
 	for k, s := range o.comps {
 		ms.comps[k] = s
 	}
+	for k := range o.imprecise {
+		ms.imprecise[k] = true
+	}
+	// writes of a merged scan (callee bodies, closures) refer to other scopes: imprecise
+	for _, w := range o.writes {
+		for _, c := range w.comps {
+			ms.imprecise[c] = true
+		}
+	}
 	if o.all {
 		ms.all = true
 	}
 }
 
 func (x *Exec) scanMods(nodes ...ast.Node) *modSet {
-	ms := &modSet{vars: map[types.Object]bool{}, comps: map[string]Sort{}}
+	ms := &modSet{vars: map[types.Object]bool{}, comps: map[string]Sort{}, imprecise: map[string]bool{}, info: x.info}
 	allocS := SArr(SInt, SBool)
-	var markLV func(e ast.Expr)
-	markLV = func(e ast.Expr) {
+	var markLV0 func(e ast.Expr)
+	markLV := func(e ast.Expr) {
+		// record which components this lvalue touches; selector and index writes are candidates
+		// for a precise frame (only the named location is havocked at the loop head)
+		var names []string
+		ms.tracking = &names
+		markLV0(e)
+		ms.tracking = nil
+		switch ast.Unparen(e).(type) {
+		case *ast.SelectorExpr, *ast.IndexExpr:
+			ms.writes = append(ms.writes, lvWrite{expr: ast.Unparen(e), comps: names, info: x.info})
+		default:
+			for _, n := range names {
+				ms.imprecise[n] = true
+			}
+		}
+	}
+	markLV0 = func(e ast.Expr) {
 		switch e := ast.Unparen(e).(type) {
 		case *ast.Ident:
 			obj := x.info.Uses[e]
@@ -714,6 +756,7 @@ func (x *Exec) havocMods(st *State, ms *modSet, tag string) {
 			st.heap[name] = x.c.Fresh(tag+"_"+name, t.sort)
 		}
 	}
+	precise := x.preciseLocs(st, ms)
 	for name, srt := range ms.comps {
 		cur := x.heapGet(st, name, srt)
 		if name == "alloc" {
@@ -724,8 +767,183 @@ func (x *Exec) havocMods(st *State, ms *modSet, tag string) {
 			st.heap[name] = na
 			continue
 		}
+		if locs, ok := precise[name]; ok {
+			for _, l := range locs {
+				_, es := cur.sort.ArrayParts()
+				cur = x.c.Store(cur, l.ref, x.c.Fresh(tag+"_"+name, es))
+			}
+			st.heap[name] = cur
+			continue
+		}
 		st.heap[name] = x.c.Fresh(tag+"_"+name, cur.sort)
 	}
+}
+
+// preciseLocs: for components that are only written through loop-invariant designators, the
+// locations (evaluated at the loop head) that must be havocked.
+func (x *Exec) preciseLocs(st *State, ms *modSet) map[string][]modLoc {
+	out := map[string][]modLoc{}
+	bad := map[string]bool{}
+	for k := range ms.imprecise {
+		bad[k] = true
+	}
+	type cand struct {
+		w    lvWrite
+		locs []modLoc
+	}
+	var cands []cand
+	for _, w := range ms.writes {
+		ok := false
+		var locs []modLoc
+		func() {
+			defer func() {
+				if r := recover(); r != nil {
+					if _, isAbort := r.(*Abort); !isAbort {
+						panic(r)
+					}
+					ok = false
+				}
+			}()
+			savedInfo := x.info
+			x.info = w.info
+			defer func() { x.info = savedInfo }()
+			var base ast.Expr
+			switch e := w.expr.(type) {
+			case *ast.SelectorExpr:
+				base = e.X
+			case *ast.IndexExpr:
+				base = e.X
+			}
+			if base == nil || !x.invariantExpr(base, ms) {
+				return
+			}
+			es := st.clone()
+			x.noOblig++
+			defer func() { x.noOblig-- }()
+			switch e := w.expr.(type) {
+			case *ast.SelectorExpr:
+				locs = x.modLocations(es, e)
+			case *ast.IndexExpr:
+				bt := x.typeOf(e.X)
+				switch u := bt.Underlying().(type) {
+				case *types.Slice:
+					v := x.expr(es, e.X)
+					locs = x.elemLocsAny(v.Arr, u.Elem())
+				case *types.Array:
+					lv := x.lvalue(es, e.X)
+					locs = x.elemLocsAny(lv.ref, u.Elem())
+				default:
+					return
+				}
+			}
+			ok = locs != nil
+		}()
+		if !ok {
+			for _, c := range w.comps {
+				bad[c] = true
+			}
+			continue
+		}
+		cands = append(cands, cand{w, locs})
+	}
+	for _, cd := range cands {
+		covered := map[string]bool{}
+		for _, l := range cd.locs {
+			covered[l.comp] = true
+			if !bad[l.comp] && !l.whole {
+				out[l.comp] = append(out[l.comp], l)
+			} else {
+				bad[l.comp] = true
+			}
+		}
+		for _, c := range cd.w.comps {
+			if !covered[c] {
+				bad[c] = true
+			}
+		}
+	}
+	for k := range bad {
+		delete(out, k)
+	}
+	return out
+}
+
+// elemLocsAny: element locations; object elements are not supported precisely (nil).
+func (x *Exec) elemLocsAny(arr *Term, el types.Type) []modLoc {
+	if isObjType(el) {
+		return nil
+	}
+	return x.elemLocs(arr, el)
+}
+
+// invariantExpr: the value of e (a designator base) cannot change inside the loop.
+func (x *Exec) invariantExpr(e ast.Expr, ms *modSet) bool {
+	switch e := ast.Unparen(e).(type) {
+	case *ast.Ident:
+		obj := x.info.Uses[e]
+		if obj == nil {
+			obj = x.info.Defs[e]
+		}
+		v, ok := obj.(*types.Var)
+		if !ok {
+			return false
+		}
+		if isPkgLevel(v) {
+			if isObjType(v.Type()) {
+				return true
+			}
+			for name := range ms.comps {
+				if name == globalComp(v) || strings.HasPrefix(name, globalComp(v)+"#") {
+					return false
+				}
+			}
+			return true
+		}
+		if isObjType(v.Type()) {
+			return true // identity of an object variable never changes
+		}
+		return !ms.vars[v] && !x.boxed[v]
+	case *ast.SelectorExpr:
+		sel, ok := x.info.Selections[e]
+		if !ok || sel.Kind() != types.FieldVal {
+			if v, ok := x.info.Uses[e.Sel].(*types.Var); ok && isPkgLevel(v) {
+				return x.invariantExpr(e.Sel, ms)
+			}
+			return false
+		}
+		if !x.invariantExpr(e.X, ms) {
+			return false
+		}
+		// every field read along the path must be unmodified
+		t := sel.Recv()
+		for _, i := range sel.Index() {
+			if p, ok := t.Underlying().(*types.Pointer); ok {
+				t = p.Elem()
+			}
+			st, ok := t.Underlying().(*types.Struct)
+			if !ok {
+				return false
+			}
+			f := st.Field(i)
+			if !isObjType(f.Type()) {
+				base := fieldComp(typeKey(t), f.Name())
+				for name := range ms.comps {
+					if name == base || strings.HasPrefix(name, base+"#") {
+						return false
+					}
+				}
+			}
+			t = f.Type()
+		}
+		return true
+	case *ast.SliceExpr:
+		return x.invariantExpr(e.X, ms)
+	case *ast.UnaryExpr:
+		if e.Op == token.AND {
+			return x.invariantExpr(e.X, ms)
+		}
+	}
+	return false
 }
 
 // checkLoopMods: soundness guard — every component changed by the body must be in the havoc set.
